@@ -95,6 +95,12 @@ def build_with_sharing(rng, p):
     elif r < 0.42:
         obj = Policy(obj.uid, effect=obj.effect, description=obj.description, context=obj.context,
                      subjects=tuple(obj.subjects), resources=tuple(obj.resources), actions=tuple(obj.actions))
+    elif r < 0.52:
+        # a context restriction of a user's own class that has `satisfied` but does not derive from vakt's Rule
+        ctx = dict(obj.context)
+        ctx[pick(rng, ['duck', 'ip', 'k'])] = proto.DuckRule(pick(rng, [1, 'x', None, [1, 2]]))
+        obj = Policy(obj.uid, effect=obj.effect, description=obj.description, context=ctx,
+                     subjects=list(obj.subjects), resources=list(obj.resources), actions=list(obj.actions))
     return obj
 
 
